@@ -181,8 +181,8 @@ def run(chk):
     big = [r for r in res2.json_lines("GEN") if len(r) == maxn + 1]
     del res2
     n_big = len(big)
-    if len(big) > 400000:                       # thorough tier: the five-statement phases are sampled
-        big = rng.sample(big, 400000)
+    if len(big) > 200000:                       # thorough tier: the five-statement phases are sampled
+        big = rng.sample(big, 200000)
     for r in big:
         for _ in range(2):
             lab = list(range(1, len(r) + 1))
@@ -202,7 +202,7 @@ def run(chk):
                                     for k, g in enumerate(combo)], "src": "phasegen"}, "case"))
     n_gen = len(rows)
     chk.stage("phasegen")
-    seeds = [1] if chk.quick else [1, 2, 3]
+    seeds = [1] if chk.quick else [1, 2]
     import multiprocessing
     n_trees = nontrivial = n_bad = 0
     samples = []
@@ -247,7 +247,7 @@ def run(chk):
                 "statements, 4 guards, 3 loop nests, no-ops) + %d-statement phases over a reduced catalogue under two "
                 "relabellings (%d of %d) + phases built by the real CodeBuilder for "
                 "ProgGen programs; each lowered in permuted list order, as frozenset and under other hash "
-                "seeds; non-trivial = >= 2 statements and at least one edge" % (maxn, maxn + 1, min(n_big, 400000), n_big),
+                "seeds; non-trivial = >= 2 statements and at least one edge" % (maxn, maxn + 1, min(n_big, 200000), n_big),
         "exhaustive": True,
         "exhaustive_scope": "all PhaseGen phases up to %d statements x all guard valuations" % maxn,
         "phases_generated": n_gen, "phases_from_builder": n_builder,
